@@ -81,9 +81,9 @@ theorem getSkip_markSkip_other (cfg : Cfg) (x d : Digest) (v : Bool) (sk : List 
     inline verification) -/
 def Step (cfg : Cfg) (hash : Bytes → Digest) (s s1 : DlState) (d : Digest) : Prop :=
   (∃ c0, s.st.blobs d = some c0 ∧ s1 = { s with skip := markSkip cfg d true s.skip }) ∨
-  (s.st.blobs d = none ∧ ∃ c pa net', (cfg.verifyEarly = true → hash c = d) ∧ s1 =
+  (s.st.blobs d = none ∧ s.canceled = false ∧ ∃ c pa net' cf, (cfg.verifyEarly = true → hash c = d) ∧ s1 =
     { st := { s.st with blobs := upd s.st.blobs d (some c), partials := upd s.st.partials d pa },
-      net := net', skip := markSkip cfg d false s.skip, renamed := s.renamed ++ [d] })
+      net := net', skip := markSkip cfg d false s.skip, renamed := s.renamed ++ [d], canceled := cf })
 
 /-- what the loop does with its first layer: it either stops there (not `ok`; only the partial
     state and the counters change) or takes a `Step` and continues -/
@@ -109,30 +109,33 @@ theorem dlLoop_cons {cfg : Cfg} {hash : Bytes → Digest} {reg : Registry} {sc :
       right; exact ⟨d, _, hd, Or.inl ⟨c0, hc0, rfl⟩, h⟩
     · rename_i hnone
       split at h
-      · rename_i c pa net' _
-        split at h
-        · left; cases h; simp
-        · rename_i hcond
-          right
-          refine ⟨d, _, hd, Or.inr ⟨hnone, c, pa, net', ?_, rfl⟩, h⟩
-          intro hv
-          simpa [hv] using hcond
       · left; cases h; simp
-      · rename_i p pa net' hdl
-        left; cases h
-        refine ⟨by simp, rfl, rfl, rfl, rfl, ?_⟩
-        intro p' hp'
-        cases hp'
-        right; exact ⟨d, _, _, by rw [hdl]⟩
+      · rename_i hcan
+        split at h
+        · rename_i c pa net' _
+          split at h
+          · left; cases h; simp
+          · rename_i hcond
+            right
+            refine ⟨d, _, hd, Or.inr ⟨hnone, by simpa using hcan, c, pa, net', _, ?_, rfl⟩, h⟩
+            intro hv
+            simpa [hv] using hcond
+        · left; cases h; simp
+        · rename_i p pa net' hdl
+          left; cases h
+          refine ⟨by simp, rfl, rfl, rfl, rfl, ?_⟩
+          intro p' hp'
+          cases hp'
+          right; exact ⟨d, _, _, by rw [hdl]⟩
 
 theorem Step.manifests {cfg : Cfg} {hash : Bytes → Digest} {s s1 : DlState} {d : Digest}
     (h : Step cfg hash s s1 d) : s1.st.manifests = s.st.manifests := by
-  rcases h with ⟨_, _, rfl⟩ | ⟨_, _, _, _, _, rfl⟩ <;> rfl
+  rcases h with ⟨_, _, rfl⟩ | ⟨_, _, _, _, _, _, _, rfl⟩ <;> rfl
 
 theorem Step.other {cfg : Cfg} {hash : Bytes → Digest} {s s1 : DlState} {d x : Digest}
     (h : Step cfg hash s s1 d) (hx : x ≠ d) :
     s1.st.blobs x = s.st.blobs x ∧ getSkip x s1.skip = getSkip x s.skip := by
-  rcases h with ⟨_, _, rfl⟩ | ⟨_, _, _, _, _, rfl⟩
+  rcases h with ⟨_, _, rfl⟩ | ⟨_, _, _, _, _, _, _, rfl⟩
   · simp [getSkip_markSkip_other, hx]
   · simp [getSkip_markSkip_other, hx, upd_other]
 
@@ -147,27 +150,27 @@ theorem Step.keeps {cfg : Cfg} {hash : Bytes → Digest} {s s1 : DlState} {d x :
 
 theorem Step.present {cfg : Cfg} {hash : Bytes → Digest} {s s1 : DlState} {d : Digest}
     (h : Step cfg hash s s1 d) : ∃ c, s1.st.blobs d = some c := by
-  rcases h with ⟨c0, hc, rfl⟩ | ⟨_, c, _, _, _, rfl⟩
+  rcases h with ⟨c0, hc, rfl⟩ | ⟨_, _, c, _, _, _, _, rfl⟩
   · exact ⟨c0, hc⟩
   · exact ⟨c, by simp [upd_same]⟩
 
 theorem Step.skip_true_same {cfg : Cfg} {hash : Bytes → Digest} {s s1 : DlState} {d : Digest}
     (hdup : cfg.fixedDup = false) (h : Step cfg hash s s1 d)
     (ht : getSkip d s1.skip = true) : s1.st.blobs d = s.st.blobs d := by
-  rcases h with ⟨_, _, rfl⟩ | ⟨_, _, _, _, _, rfl⟩
+  rcases h with ⟨_, _, rfl⟩ | ⟨_, _, _, _, _, _, _, rfl⟩
   · rfl
   · simp [markSkip_pinned hdup, getSkip_setSkip] at ht
 
 theorem Step.skip_or_renamed {cfg : Cfg} {hash : Bytes → Digest} {s s1 : DlState} {d : Digest}
     (hdup : cfg.fixedDup = false) (h : Step cfg hash s s1 d) :
     getSkip d s1.skip = true ∨ d ∈ s1.renamed := by
-  rcases h with ⟨_, _, rfl⟩ | ⟨_, _, _, _, _, rfl⟩
+  rcases h with ⟨_, _, rfl⟩ | ⟨_, _, _, _, _, _, _, rfl⟩
   · left; simp [markSkip_pinned hdup, getSkip_setSkip]
   · right; simp
 
 theorem Step.renamed_mono {cfg : Cfg} {hash : Bytes → Digest} {s s1 : DlState} {d x : Digest}
     (h : Step cfg hash s s1 d) (hx : x ∈ s.renamed) : x ∈ s1.renamed := by
-  rcases h with ⟨_, _, rfl⟩ | ⟨_, _, _, _, _, rfl⟩
+  rcases h with ⟨_, _, rfl⟩ | ⟨_, _, _, _, _, _, _, rfl⟩
   · exact hx
   · simp [hx]
 
@@ -175,7 +178,7 @@ theorem Step.changed_renamed {cfg : Cfg} {hash : Bytes → Digest} {s s1 : DlSta
     (h : Step cfg hash s s1 d) (x : Digest) : s1.st.blobs x = s.st.blobs x ∨ x ∈ s1.renamed := by
   by_cases hx : x = d
   · subst hx
-    rcases h with ⟨_, _, rfl⟩ | ⟨_, _, _, _, _, rfl⟩
+    rcases h with ⟨_, _, rfl⟩ | ⟨_, _, _, _, _, _, _, rfl⟩
     · left; rfl
     · right; simp
   · left; exact (h.other hx).1
@@ -192,7 +195,7 @@ theorem Step.blobInv_early {cfg : Cfg} {hash : Bytes → Digest} {s s1 : DlState
     (hearly : cfg.verifyEarly = true) (h : Step cfg hash s s1 d)
     (hinv : ∀ x c, s.st.blobs x = some c → hash c = x) : ∀ x c, s1.st.blobs x = some c → hash c = x := by
   intro x c hx
-  rcases h with ⟨_, _, rfl⟩ | ⟨_, c', _, _, hh, rfl⟩
+  rcases h with ⟨_, _, rfl⟩ | ⟨_, _, c', _, _, _, hh, rfl⟩
   · exact hinv x c hx
   · by_cases e : x = d
     · subst e
@@ -491,9 +494,9 @@ theorem pull_cases {cfg : Cfg} {hash : Bytes → Digest} {name : Name} {reg : Re
     (h : pull cfg hash name reg sc st = (o, st', log)) :
     (o ≠ .ok () ∧ st' = st ∧ log.renamed = [] ∧
       (∀ p, o = .panic p → ∃ k s net, (mrr cfg reg.realm (Reply.pass MBody.served) Policy.dflt k s net).1 = .panic p)) ∨
-    (∃ net0 s, dlLoop cfg hash reg sc reg.manifest.all ⟨st, net0, [], []⟩ = (o, s) ∧ o ≠ .ok () ∧
+    (∃ net0 s, dlLoop cfg hash reg sc reg.manifest.all ⟨st, net0, [], [], false⟩ = (o, s) ∧ o ≠ .ok () ∧
       st' = s.st ∧ log.renamed = s.renamed) ∨
-    (∃ net0 s ov st2, dlLoop cfg hash reg sc reg.manifest.all ⟨st, net0, [], []⟩ = (.ok (), s) ∧
+    (∃ net0 s ov st2, dlLoop cfg hash reg sc reg.manifest.all ⟨st, net0, [], [], false⟩ = (.ok (), s) ∧
       verifyPhase cfg hash s.skip reg.manifest.all s.st = (ov, st2) ∧ log.renamed = s.renamed ∧
       ((ov ≠ .ok () ∧ o = ov ∧ st' = st2) ∨
        (ov = .ok () ∧ o = .ok () ∧
@@ -501,6 +504,8 @@ theorem pull_cases {cfg : Cfg} {hash : Bytes → Digest} {name : Name} {reg : Re
         st'.blobs = prunedBlobs cfg name reg.manifest st st2))) := by
   unfold pull at h
   simp only at h
+  split at h
+  · left; cases h; simp
   split at h
   · left; cases h; simp
   · rename_i p _ net1 n hm
@@ -601,6 +606,7 @@ theorem chunkStep_honest (c file : Bytes) (off sz : Nat) (w : Bool) (hsz : 0 < s
     | cons _ _ => rfl
   simp only [chunkStep, honestReply, bodyOf, Nat.add_zero, Nat.sub_zero, Nat.add_sub_cancel_left,
     List.take_take, Nat.min_self, hlen, hne, if_true, Bool.not_false, Bool.or_true, Nat.zero_add]
+  simp
 
 /-- honest CDN, fresh plan: all parts complete and the file is the blob -/
 theorem runParts_plan (cfg : Cfg) (c : Bytes) (hret : 0 < cfg.retries) :
@@ -685,19 +691,20 @@ theorem dlLoop_honest (cfg : Cfg) (hash : Bytes → Digest) (reg : Registry)
       (∀ l ∈ ls, ∃ d c, l.digest = .ok d ∧ lookupC d reg.content = some c ∧ hash c = d) →
       (∀ d c, s.st.blobs d = some c → hash c = d) →
       (∀ l ∈ ls, ∀ d, l.digest = .ok d → s.st.blobs d = none → s.st.partials d = Partial.none) →
+      s.canceled = false →
       ∃ s', dlLoop cfg hash reg Scripts.honest ls s = (.ok (), s') ∧
         (∀ d c, s'.st.blobs d = some c → hash c = d) := by
   induction ls with
-  | nil => intro s _ hb _; exact ⟨s, rfl, hb⟩
+  | nil => intro s _ hb _ _; exact ⟨s, rfl, hb⟩
   | cons l ls ih =>
-    intro s hreg hb hclean
+    intro s hreg hb hclean hcan
     obtain ⟨d, c, hd, hc, hh⟩ := hreg l (by simp)
     have hreg' : ∀ l' ∈ ls, ∃ d c, l'.digest = .ok d ∧ lookupC d reg.content = some c ∧ hash c = d :=
       fun l' hl' => hreg l' (by simp [hl'])
     cases hbl : s.st.blobs d with
     | some c0 =>
       obtain ⟨s', hs', hb'⟩ := ih { s with skip := markSkip cfg d true s.skip } hreg' hb
-        (fun l' hl' d' hd' hn => hclean l' (by simp [hl']) d' hd' hn)
+        (fun l' hl' d' hd' hn => hclean l' (by simp [hl']) d' hd' hn) hcan
       refine ⟨s', ?_, hb'⟩
       simp only [dlLoop, hd, hbl]
       exact hs'
@@ -706,7 +713,7 @@ theorem dlLoop_honest (cfg : Cfg) (hash : Bytes → Digest) (reg : Registry)
       obtain ⟨net', hdl⟩ := downloadLayer_honest cfg reg d c s.net hret hmin hmax hc
       let s1 : DlState :=
         { st := { s.st with blobs := upd s.st.blobs d (some c), partials := upd s.st.partials d Partial.none }
-          net := net', skip := markSkip cfg d false s.skip, renamed := s.renamed ++ [d] }
+          net := net', skip := markSkip cfg d false s.skip, renamed := s.renamed ++ [d], canceled := false }
       have hb1 : ∀ x cx, s1.st.blobs x = some cx → hash cx = x := by
         intro x cx hx
         by_cases e : x = d
@@ -721,11 +728,13 @@ theorem dlLoop_honest (cfg : Cfg) (hash : Bytes → Digest) (reg : Registry)
         · subst e; simp only [s1, upd_same] at hn; cases hn
         · simp only [s1, upd_other _ _ _ _ e] at hn ⊢
           exact hclean l' (by simp [hl']) d' hd' hn
-      obtain ⟨s', hs', hb'⟩ := ih s1 hreg' hb1 hcl1
+      obtain ⟨s', hs', hb'⟩ := ih s1 hreg' hb1 hcl1 rfl
       refine ⟨s', ?_, hb'⟩
       have hls : lookupS d Scripts.honest.layers = LScript.empty := rfl
       have hcond : (cfg.verifyEarly && hash c != d) = false := by simp [hh]
-      simp only [dlLoop, hd, hbl, hls, hpa, hdl, hcond, Bool.false_eq_true, if_false]
+      have hcf : (false || (cfg.verifyEarly && Scripts.honest.cancel == some (CancelPoint.verifying s.renamed.length))) = false := by
+        simp [Scripts.honest]
+      simp only [dlLoop, hd, hbl, hls, hpa, hdl, hcond, hcan, hcf, Bool.false_eq_true, if_false]
       exact hs'
 
 /-- if every stored layer hashes to its name the verify loop passes -/
